@@ -319,10 +319,12 @@ def check_core_scope_semantics(col, rule: str, repo: Repo):
     rr = [r for r in walk_no_nested(ds.node) if isinstance(r, ast.Return)]
     from sa.core.paths import guards, parent_map
     pm = parent_map(ds.node)
-    sig = [(src(r.value), [(src(t), tr) for t, tr in guards(ds.node, r, pm)]) for r in rr]
+    from sa.core.paths import pguards
+    sig = [(src(r.value), sorted(set(pguards(ds.node, r, pm)))) for r in rr]
     p0, p1 = ds.node.args.args[0].arg, ds.node.args.args[1].arg
-    ok = sig == [(p0, [("not s2.starts_with(s1)", True)]), (p0, [("s1.starts_with(s2)", True), ("not s2.starts_with(s1)", False)]),
-                 (p1, [("not s2.starts_with(s1)", False), ("s1.starts_with(s2)", False)])]
+    deeper = {("s2.starts_with(s1)", True), ("s1.starts_with(s2)", False)}        # the second strictly extends the first
+    ok = bool(sig) and all((set(g) == deeper) if v == p1 else (v == p0 and bool({(c, not t) for c, t in deeper} & set(g))) for v, g in sig) \
+        and any(v == p1 for v, _ in sig)
     s1d = {src(n.targets[0]): src(n.value) for n in walk_no_nested(ds.node) if isinstance(n, ast.Assign)}
     ok = ok and s1d == {"s1": f"{p0}.scope()", "s2": f"{p1}.scope()"}
     col.add(rule, "deepest_scope", "second-wins-only-if-strictly-deeper", ok,
@@ -821,9 +823,10 @@ def check_created_variables_declared(col, rule: str, repo: Repo, floor: int = 8)
                         decls.append(c)
                     elif isinstance(x, ast.Call) and call_name(x) == "cpp_variable" and x.args and src(x.args[0]) == f"{name}.as_cpp()":
                         decls.append(c)
-            asserts = {id(x.test) for x in ast.walk(f.node) if isinstance(x, ast.Assert)}
-            g_create = {(src(t), tr_) for t, tr_ in guards(f.node, a, pm) if id(t) not in asserts}
-            ok = any({(src(t), tr_) for t, tr_ in guards(f.node, c, pm) if id(t) not in asserts} <= g_create and c.lineno > a.lineno for c in decls)
+            from sa.core.paths import positive
+            asserts = {src(positive(x.test)[0]) for x in ast.walk(f.node) if isinstance(x, ast.Assert)}
+            g_create = {(src(t), tr_) for t, tr_ in guards(f.node, a, pm) if src(t) not in asserts}
+            ok = any({(src(t), tr_) for t, tr_ in guards(f.node, c, pm) if src(t) not in asserts} <= g_create and c.lineno > a.lineno for c in decls)
             col.add(rule, f.short, f"created-variable-is-declared:{name}", ok,
                     f"`{name} = {call_name(a.value)}(...)` introduces a C++ identifier that the emitted statements use; it must be passed to declare_variable "
                     f"(found {len(decls)} declaration call(s) for it, conditions compared with its creation)", f"{f.module.rel}:{a.lineno}")
